@@ -393,8 +393,61 @@ fn nuts_rows(ctx: &Ctx) {
     });
 }
 
+/// "row c belongs to the c-th initial state": right after construction (and seeding) every chain of every
+/// sampler must sit at the initial state it was given, and the first returned row must belong to it.
+fn initial_states(ctx: &Ctx) {
+    use mini_mcmc::core::init_det;
+    for n in [1usize, 2, 3, 5, 8] {
+        for seeded in [false, true] {
+            let case = json!({"kind": "initial-states", "n_chains": n, "seeded": seeded});
+            ctx.evals(1);
+            ctx.transitions(4);
+            // MH
+            let inits = init_det::<f64>(n, 2);
+            let s = mh_build(n, if seeded { Some(3) } else { None }, false);
+            for c in 0..n {
+                if s.chains[c].current_state != inits[c] {
+                    ctx.violation(Violation::new("C09:initial-state(MH)", format!("MH chain {c} of {n} does not start at its initial state (seeded: {seeded})"), case.clone()));
+                }
+            }
+            // Gibbs: distinct initial states per chain
+            let g = gibbs_build(n, if seeded { Some(3) } else { None });
+            for c in 0..n {
+                let want = vec![c as f64 * 0.5, -1.0, 2.0];
+                if g.chains[c].current_state != want {
+                    ctx.violation(Violation::new("C09:initial-state(Gibbs)", format!("Gibbs chain {c} of {n} starts at {:?}, its initial state is {want:?} (seeded: {seeded})", g.chains[c].current_state), case.clone()));
+                }
+            }
+            // HMC / NUTS
+            let h = hmc_build::<f64, BF64>(n, if seeded { Some(3) } else { None }, false);
+            let hr = rows(&h.positions);
+            for c in 0..n {
+                let want = vec![0.5 + 0.1 * c as f64, 0.5 - 0.05 * c as f64];
+                if hr[c] != want {
+                    ctx.violation(Violation::new("C09:initial-state(HMC)", format!("HMC row {c} of {n} starts at {:?}, its initial position is {want:?}", hr[c]), case.clone()));
+                }
+            }
+            let mut nu = nuts_build::<f64, BF64>(n, if seeded { Some(3) } else { None }, false);
+            let first = catch(|| cube(&nu.run(1, 0)));
+            for (c, ch) in nu.verif_chains_mut().iter().enumerate() {
+                let _ = (c, ch);
+            }
+            if let Ok(first) = first {
+                for c in 0..n {
+                    let want = vec![0.3 + 0.2 * c as f64, 0.7 - 0.1 * c as f64];
+                    if first[c][0] != want {
+                        ctx.violation(Violation::new("C09:initial-state(NUTS)", format!("NUTS::run(1,0) row {c} of {n} is {:?}, the chain's initial position is {want:?}", first[c][0]), case.clone()));
+                    }
+                }
+            }
+            ctx.outcome("initial-state configurations", 1);
+        }
+    }
+}
+
 pub fn run(ctx: &Ctx) {
     ctx.rule("(A) E3: counting MarkovChain under ChainRunner::run, ALL histories of run(n_collect,n_discard) calls with n_collect,n_discard in 0..6 up to the stated depth for n_chains {1,2,3,5,8,32} x dim {1,2,16}, against a counter model (shape, row<->chain, entry k = counter n_discard+k+1, exact transition count, continuation); (B) MH / Gibbs / HMC: run(a,d);run(b,0) == run(a+b,d) == manual stepping, bit for bit, all a,b,d in the stated cube, 1 and 3 chains; (C) NUTSChain rows vs recorded per-transition positions, exact transition count n_collect+n_discard-1, continuation, NUTS::run == its chains run individually. states = distinct (configuration, history) nodes; transitions = run() calls");
+    initial_states(ctx);
     counting(ctx);
     continuation(ctx);
     nuts_rows(ctx);
@@ -424,6 +477,7 @@ pub fn check_case(ctx: &Ctx, case: &Value) {
             }
         }
         Some("continuation") => continuation(ctx),
+        Some("initial-states") => initial_states(ctx),
         _ => nuts_rows(ctx),
     }
 }
